@@ -36,3 +36,25 @@ pub fn handle(toks: &[&str]) -> String {
     let cmds = parse::parse(text);
     cmds.iter().map(render_ucode).collect::<Vec<_>>().join("|")
 }
+
+fn render_stripped(u: &UnOptCode) -> String {
+    format!(
+        "{},{},{},{}",
+        u.get_type(),
+        u.get_hangul_count(),
+        u.get_dot_count(),
+        dotted(&format!("{:?}", u.get_area()))
+    )
+}
+
+pub fn handle_reparse(toks: &[&str]) -> String {
+    let text = if toks.is_empty() { String::new() } else { text_of(toks[0]) };
+    let cmds = parse::parse(text);
+    let joined: String = cmds.iter().map(|u| u.get_raw()).collect();
+    let again = parse::parse(joined);
+    format!(
+        "{}#{}",
+        cmds.iter().map(render_stripped).collect::<Vec<_>>().join("|"),
+        again.iter().map(render_stripped).collect::<Vec<_>>().join("|")
+    )
+}
